@@ -144,10 +144,11 @@ class C18(PoolCheck):
                         op.update(api='iter_errors', lazy=0)
             if epilogue['api'] == 'find':
                 epilogue = dict(epilogue, api='iter_errors', lazy=0)
+        lines = rng.random() < (0.25 if self.tier == 'quick' else 0.5)
+        line_file = rng.choice(simsched.LINE_FILES) if rng.random() < 0.12 else None
         return {'entry': key, 'scenario': scenario, 'programs': programs, 'epilogue': epilogue, 'build_first': build_first,
                 'policy': policy, 'sseed': rng.randrange(1 << 30), 'knobs': histories.gen_knobs(rng),
-                'lines': rng.random() < (0.25 if self.tier == 'quick' else 0.5),
-                'nometa': nometa}
+                'lines': lines or line_file is not None, 'nometa': nometa, 'line_file': line_file}
 
     # ------------------------------------------------------------------
     def run_case(self, case):
@@ -161,7 +162,7 @@ class C18(PoolCheck):
             ref_globals = self.globals_nometa[case['entry']]
         histories.apply_knobs(schema, case.get('knobs'))
         sched = simsched.Scheduler(random.Random(case['sseed']), case['policy'], replay=case.get('schedule'),
-                                   line_level=bool(case.get('lines')))
+                                   line_level=bool(case.get('lines')), line_file=case.get('line_file'))
         simsched.install_locks(sched, [schema])
         env = self.new_env()
         counters = {}
@@ -295,6 +296,8 @@ class C18(PoolCheck):
         counters['switches'] = sched.switches
         counters['switches_with_2_threads_active'] = sched.concurrent_switches
         counters['policy_' + case['policy']['kind']] = 1
+        if case.get('line_file'):
+            counters['line_level_whole_file_runs'] = 1
         if case.get('lines'):
             counters['line_level_runs'] = 1
             counters['line_level_frames'] = sched.line_frames
